@@ -26,6 +26,54 @@ def neg(e):
     return ("not", e)
 
 
+_SUMM = {}
+
+
+def disc_summary(facts, path):
+    """For a crate-local bool function whose result depends only on the variant of its first argument (`matches!(self, X(_))`,
+    `match self { X => true, _ => false }`): {variant index: bool}.  None otherwise.  (is_pass / is_blocked / is_wait ...)"""
+    key = (id(facts), path)
+    if key in _SUMM:
+        return _SUMM[key]
+    _SUMM[key] = None
+    b = facts.bodies.get(path)
+    if b is None or b.ret_ty != "bool" or b.argc < 1 or len(b.blocks) > 40:
+        return None
+    ty = b.local_ty(1).lstrip("&").replace("mut ", "").strip()
+    adt = facts.adts.get(ty)
+    if not adt or adt.get("kind") != "Enum":
+        return None
+    n = len(adt["variants"])
+    pname = "param:%s" % (b.param_name(1) or "arg1")
+
+    def cls(atoms, op=None):
+        return "self" if (pname in atoms and "discr" in atoms) else "other"
+    w = Walker(facts, b, cls)
+    out = {}
+    for p in w.walk(0, lambda bb, env: None):
+        if p["outcome"][0] != "return":
+            return None
+        v = p["env"].get("_0")
+        if v is None or v[0] != "const":
+            return None
+        vals = set(range(n))
+        for l in p["lits"]:
+            if l[0] == "disc" and l[1] == "self":
+                vals &= {l[2]}
+            elif l[0] == "disc_other" and l[1] == "self":
+                vals -= set(l[2])
+            else:
+                return None
+        for x in vals:
+            if x in out and out[x] != v[1]:
+                return None
+            out[x] = v[1]
+    if set(out) != set(range(n)):
+        return None
+    _SUMM[key] = out
+    return out
+
+
 class Walker:
     """classify(atoms:set, operand) -> role string (stable, line-free)."""
 
@@ -40,6 +88,7 @@ class Walker:
         self.paths = []
         self.truncated = False
         self.unroll = unroll   # a block may appear this many times on a path (2 = one loop iteration, then exit)
+        self.summarise_predicates = False   # bool methods that only test the variant of their receiver -> discriminant atom of its role
         self.option_calls_as_disc = False   # is_some()/is_none()/is_ok()/is_err() on an unknown value -> discriminant atom of its role
         self.force_opaque = None   # optional hook: call terminator -> name; treated as an opaque boolean even if it is a comparison call
 
@@ -89,10 +138,12 @@ class Walker:
             v = env.get(place_str(rv["pl"]))
             if v is not None and v[0] == "variant":
                 return ("discconst", v[2])
+            if v is not None and v[0] == "someif":
+                return ("discbool", v[1])
             return None
         if k == "ref" and not rv.get("mut"):
             v = env.get(place_str(rv["pl"]))
-            if v is not None and v[0] == "variant":
+            if v is not None and v[0] in ("variant", "someif"):
                 return v
             return None
         if k == "bin" and rv["op"] in CMP_OPS:
@@ -202,6 +253,11 @@ class Walker:
             elif v is not None and v[0] == "discconst":
                 tg = dict(t["targets"]).get(v[1], t["otherwise"])
                 self._dfs(tg, env, lits, blocks, stop, onpath)
+            elif v is not None and v[0] == "discbool":
+                # Option whose presence is a known boolean expression: Some (1) iff e
+                tmap = dict(t["targets"])
+                self._dfs(tmap.get(1, t["otherwise"]), env, lits + [v[1]], blocks, stop, onpath)
+                self._dfs(tmap.get(0, t["otherwise"]), env, lits + [neg(v[1])], blocks, stop, onpath)
             else:
                 atoms = self.sl.of_operand(t["op"])
                 role = self.classify(atoms, t["op"]) + sfx
@@ -234,6 +290,10 @@ class Walker:
                     env2 = dict(env)
                     env2[dest] = ("const", av[1] == {"is_none": "None", "is_some": "Some", "is_ok": "Ok", "is_err": "Err"}[nm])
                     name = nm
+                elif av is not None and av[0] == "someif" and nm in ("is_some", "is_none"):
+                    env2 = dict(env)
+                    env2[dest] = av[1] if nm == "is_some" else neg(av[1])
+                    name = nm
                 elif self.option_calls_as_disc:
                     # unknown value: the same atom a `match` on it would produce (discriminant of the operand's role), so that
                     # `if x.is_some() { x.unwrap() .. }` and `match x { Some(..) => .. }` give the same table
@@ -242,13 +302,44 @@ class Walker:
                     env2 = dict(env)
                     env2[dest] = ("disc2", role, {"is_none": 0, "is_some": 1, "is_ok": 0, "is_err": 1}[nm])
                     name = nm
+            if name is None and self.summarise_predicates and t.get("dest_ty") == "bool" and t["args"]:
+                tgs = [x for x in self.f.call_targets(self.b, t) if x in self.f.bodies]
+                summ = disc_summary(self.f, tgs[0]) if len(tgs) == 1 else None
+                if summ is not None:
+                    atoms = self.sl.of_operand(t["args"][0]) | {"discr"}
+                    role = self.classify(atoms, t["args"][0])
+                    env2 = dict(env)
+                    env2[dest] = ("discin", role, frozenset(k for k, v in summ.items() if v), len(summ))
+                    name = "summ"
             if name is None and t.get("hof_passthrough"):
                 # the unfolded closure ran on this path and its result is known: find_map / and_then hand exactly that value on;
                 # if it did not run, find_map yields None
                 env2 = dict(env)
-                if dest not in env2:
-                    if t["hof_passthrough"] == "find_map":
+                kind = t["hof_passthrough"]
+                ran = dest in env2
+                v = env2.get(dest)
+                if kind == "find_map":
+                    if not ran:
                         env2[dest] = ("variant", "None", 0)
+                elif kind in ("find", "position"):
+                    # Some(element) iff the predicate said true (for the element looked at on this path); None without elements
+                    if not ran:
+                        env2[dest] = ("variant", "None", 0)
+                    elif v is not None and v[0] not in ("variant", "someif"):
+                        env2[dest] = ("someif", v)
+                    else:
+                        env2.pop(dest, None)
+                elif kind in ("any", "all"):
+                    if not ran:
+                        env2[dest] = ("const", kind == "all")
+                    elif v is None or v[0] in ("variant", "someif"):
+                        env2.pop(dest, None)
+                elif kind == "map":
+                    a = self.val_of_operand(t["args"][0], env) if t["args"] else None
+                    if a is not None and a[0] in ("variant", "someif"):
+                        env2[dest] = a if a[0] == "someif" or a[1] == "None" else ("variant", "Some", 1)
+                    else:
+                        env2.pop(dest, None)
                 name = "hof"
             if name is None:
                 env2 = dict(env)
@@ -279,6 +370,8 @@ def atoms_of(e, acc):
         acc["opaque"].add(e[1])
     elif e[0] == "disc2":
         acc["disc"].setdefault(e[1], set()).update((0, 1))
+    elif e[0] == "discin":
+        acc["disc"].setdefault(e[1], set()).update(range(e[3]))
     elif e[0] in ("disc", "disc_other"):
         acc["disc"].setdefault(e[1], set())
         if e[0] == "disc":
@@ -307,6 +400,8 @@ def ev(e, asg):
         return asg["opaque"][e[1]]
     if k in ("disc", "disc2"):
         return asg["disc"][e[1]] == e[2]
+    if k == "discin":
+        return asg["disc"][e[1]] in e[2]
     if k == "disc_other":
         return asg["disc"][e[1]] not in e[2]
     if k == "cmp":
@@ -383,6 +478,8 @@ def fmt_expr(e):
         return e[1]
     if k in ("disc", "disc2"):
         return "%s is #%s" % (e[1], e[2])
+    if k == "discin":
+        return "%s in %s" % (e[1], sorted(e[2]))
     if k == "disc_other":
         return "%s not in %s" % (e[1], list(e[2]))
     if k == "cmp":
